@@ -93,6 +93,14 @@ Theorem C14_exec_expressions_frame : forall fuel E e s r s',
 Proof. intros fuel E e s r s' G H. exact (sound_eval_plain fuel E e G s r s' H). Qed.
 Print Assumptions C14_exec_expressions_frame.
 
+(** save() writes the context at the moment of the call: the rest of the block — whether it finishes
+    or raises ([r] is any outcome) — leaves every key it does not save again as it was *)
+Theorem C14_save_takes_effect_at_call : forall fuel E rest s1 r s' k,
+  gk E = GPlain -> exec_block fuel E rest s1 = (r, s') ->
+  ~ In k (block_targets rest) -> ns_get k (ctx s') = ns_get k (ctx s1).
+Proof. exact rest_of_block_keeps_saved. Qed.
+Print Assumptions C14_save_takes_effect_at_call.
+
 (** * In-place mutation stays visible *)
 Theorem C14_inplace_visible_exec : forall mt b c h k r items z,
   ns_get k c = Some (PRef r) -> nth_error h r = Some (OList items) ->
@@ -319,6 +327,19 @@ Example C14_import_survives_hidden_key_nonvacuous :
       [ Ok (CInt 5); Ok (CInt 2); Ok (CNative "math.gcd"); Ok (CList 1000 [CInt 1; CInt 2]) ]
       [("lst", CList 0 [CInt 1; CInt 2])] [("gcd", CNative "math.gcd")] []).
 Proof. vm_compute. reflexivity. Qed.
+
+(** save then raise: the key is in the context although the block failed; a live view of the context
+    (a context value that reads the context when called) sees a saved key right after save() *)
+Example C14_save_at_call_nonvacuous :
+  exec_case std_mods std_builtins 1 h1 [("a", PInt 1); ("peek", PNative "c14_run.peek")]
+    [SAssign "x" (XInt 5); SSave ["x"] [("k", XInt 7)]; SExpr (N "nope")]
+  = Some (mk_obs [Err "NameError" "name 'nope' is not defined"]
+           [("a", CInt 1); ("peek", CNative "c14_run.peek"); ("x", CInt 5); ("k", CInt 7)] [] [])
+  /\ exec_case std_mods std_builtins 1 h1 [("a", PInt 1); ("peek", PNative "c14_run.peek")]
+       [SAssign "x" (XInt 5); SSave ["x"] []; SAssign "r" (XCall (N "peek") [XStr "x"]); SSave ["r"] []]
+     = Some (mk_obs [Ok CNone]
+           [("a", CInt 1); ("peek", CNative "c14_run.peek"); ("x", CInt 5); ("r", CInt 5)] [] []).
+Proof. split; vm_compute; reflexivity. Qed.
 
 (** * Tie B: the namespace-building lines of pypyr, translated from the CURRENT source by
     tools/py2coq_c14.py (Gen/GenC14.v), are the model the theorems above are about *)
